@@ -489,6 +489,11 @@ impl Check for C17 {
 			(5, i) => fam_f(tier, i, ctx),
 			(_, i) => {
 				crate::pacer::set_mode(crate::pacer::Mode::Pacer);
+				if i == 0 {
+					if let Err(p) = catch(|| fam_h(ctx)) {
+						ctx.fail(format!("panic: {} :: clock-timed tweener tweens / vector links", p), "");
+					}
+				}
 				if let Err(p) = catch(|| fam_g(i, ctx)) {
 					ctx.fail(format!("panic: {} :: G #{}", p, i), "");
 				}
@@ -1678,6 +1683,108 @@ fn fam_f(tier: Tier, which: u64, ctx: &mut Ctx) {
 
 // ---------------------------------------------------------------------------------------------
 // G: linked parameters of a sound that is waiting (delayed start, pause, decoder underrun) keep following the modulator
+
+/// (a) a tweener tween scheduled on a clock: it waits while the clock is short of the time, runs while the clock exists, and
+///     HOLDS (never starts / stops where it is) once the clock no longer exists;
+/// (b) vector-valued links (emitter and listener position) go through the same mapping as scalar ones: clamped, EASED, interpolated.
+fn fam_h(ctx: &mut Ctx) {
+	// ---- (a)
+	for (d, e) in [(0.0f64, Easing::Linear), (1.0, Easing::Linear), (1.0, Easing::InPowi(2))] {
+		for gone_after in [0usize, 2, 4, 7] {
+			ctx.evals += 1;
+			ctx.traces += 1;
+			let mut with_clock = |ticks: u64, frac: f64| {
+				let mut b = MockInfoBuilder::new();
+				let m = b.add_modulator(0.0);
+				let c = b.add_clock(true, ticks, frac);
+				(m, c, b.build())
+			};
+			let (mid, cid, _) = with_clock(0, 0.0);
+			let no_clock = {
+				let mut b = MockInfoBuilder::new();
+				b.add_modulator(0.0);
+				b.build()
+			};
+			let (mut tw, mut h) = TweenerBuilder { initial_value: 0.25 }.build(mid);
+			h.set(1.0, Tween { start_time: StartTime::ClockTime(kira::clock::ClockTime { clock: cid, ticks: 2, fraction: 0.0 }), duration: dur(d), easing: e });
+			let dt = 0.25;
+			let mut model = TwM { v: 0.25, st: None };
+			let mut started = false;
+			let mut vals = vec![];
+			let mut bad = None;
+			for k in 0..12usize {
+				// the clock advances half a tick per update: it reaches tick 2 at update 4
+				let ticks_f = 0.5 * k as f64;
+				let info = if k >= gone_after { None } else { Some(with_clock(ticks_f as u64, ticks_f.fract()).2) };
+				tw.on_start_processing();
+				match &info {
+					Some(i) => tw.update(dt, i),
+					None => tw.update(dt, &no_clock),
+				}
+				if info.is_some() && ticks_f >= 2.0 {
+					if !started {
+						started = true;
+						model.set(1.0, d, e, None);
+					}
+					model.update(dt);
+				}
+				vals.push(tw.value());
+				ctx.transitions += 1;
+				if !close(tw.value(), model.v, 4.0) && bad.is_none() {
+					bad = Some(format!("update #{}: value {}, expected {} ({})", k, tw.value(), model.v, if info.is_none() { "the clock no longer exists: the value holds" } else if ticks_f < 2.0 { "the clock is short of the time" } else { "the tween runs" }));
+				}
+			}
+			if let Some(b) = bad {
+				ctx.fail(
+					"tweener: a tween scheduled on a clock does not wait for / run with / hold without that clock :: clock-timed tween".to_string(),
+					format!("tweener(0.25).set(1.0, Tween {{ start at tick 2 of a clock, duration {} s, {:?} }}); 12 updates of 0.25 s, the clock advances half a tick per update and no longer exists from update #{} on; {}; values {:?}", d, e, gone_after, b, vals),
+				);
+			} else {
+				ctx.nontrivial_extra += 1;
+			}
+			ctx.state(hash64(&("fam_h a", quant(d), format!("{:?}", e), gone_after)));
+		}
+	}
+	// ---- (b)
+	use kira::track::SpatialTrackBuilder;
+	for e in [Easing::Linear, Easing::InPowi(2), Easing::OutPowi(2), Easing::InOutPowi(3)] {
+		for at in [0.0f64, 0.25, 0.5, 1.0, 1.5] {
+			for on_listener in [false, true] {
+				ctx.evals += 1;
+				ctx.traces += 1;
+				let mut m = rig::manager(SR, 4, rig::caps(4), MainTrackBuilder::new());
+				let tw = m.add_modulator(TweenerBuilder { initial_value: at }).unwrap();
+				let v = |x: f32| mint::Vector3 { x, y: 0.0f32, z: 0.0f32 };
+				let linked: Value<mint::Vector3<f32>> = Value::FromModulator { id: tw.id(), mapping: Mapping { input_range: (0.0, 1.0), output_range: (v(1.0), v(17.0)), easing: e } };
+				let q = mint::Quaternion { v: v(0.0), s: 1.0f32 };
+				let sp = SpatialTrackBuilder::new().distances((1.0, 17.0)).attenuation_function(Some(Easing::Linear)).spatialization_strength(0.0);
+				// the moving end is linked; the other one rests at the origin
+				let l = if on_listener { m.add_listener(linked, q).unwrap() } else { m.add_listener(v(0.0), q).unwrap() };
+				let mut t = if on_listener { m.add_spatial_sub_track(&l, v(0.0), sp).unwrap() } else { m.add_spatial_sub_track(&l, linked, sp).unwrap() };
+				let _s = t.play(rig::static_data(SR, rig::dc_frames(4, 0.5)).loop_region(kira::sound::Region::from(..))).unwrap();
+				let mut out = vec![];
+				for _ in 0..4 {
+					rig::render_stereo(&mut m, 4, &mut out);
+				}
+				let x = 1.0 + 16.0 * ease(e, at.clamp(0.0, 1.0));
+				let rel = (x - 1.0) / 16.0;
+				let want = if rel >= 1.0 { 0.0 } else { 0.5 * 10f64.powf(-3.0 * rel) };
+				let got = out[out.len() - 1].0 as f64;
+				if (got - want).abs() > 2e-5 {
+					ctx.fail(
+						format!("link: parameter differs from mapping(modulator value of the same chunk) :: target={} position (vector-valued link)", if on_listener { "listener" } else { "spatial track" }),
+						format!("{} position linked to a tweener at {} through Mapping{{input (0,1), output ((1,0,0), (17,0,0)), {:?}}}: distance {} expected, level {} expected (linear attenuation over 1..17), got {}", if on_listener { "listener" } else { "emitter" }, at, e, x, want, got),
+					);
+				} else {
+					ctx.nontrivial_extra += 1;
+				}
+				ctx.state(hash64(&("fam_h b", format!("{:?}", e), quant(at), on_listener)));
+				drop((t, l, tw));
+			}
+		}
+	}
+	ctx.outcome(hash64(&"fam_h"));
+}
 
 fn fam_g(which: u64, ctx: &mut Ctx) {
 	use crate::probes::{ScriptedDecoder, SoundHandle};
